@@ -6,6 +6,7 @@ tree (the marker is regenerated from the source on every run).
 -/
 import SuccinctlyVerif.Proof.YamlEmit
 import SuccinctlyVerif.Proof.YamlAnchor
+import SuccinctlyVerif.Proof.YamlResolve
 namespace SV.Props.C15
 open SV.Yaml SV.Yaml.Emit
 
@@ -225,6 +226,63 @@ example : loadScalar resolvePlainRs .blockValue (streamSmartQuoted .v0 ".5".toLi
     some (.float .finite) := by decide
 /-- `-I 0`: the DOM emitter's indentation step was empty. -/
 example : domIndentWidth .v0 0 = 0 := by decide
+
+/-! ## `resolve_plain` and the core schema -/
+
+/-- `resolve_plain` (the loader's resolver, model of `src/yaml/scalar.rs`) IS the YAML 1.2 core
+schema resolution `coreResolve` (written from §10.3.2) on every text, with exactly the exceptions
+the source documents — `deviates s`: the core schema types `s` as an integer outside `i64`, or as a
+decimal float whose value overflows `f64`. -/
+theorem resolve_plain_is_core_schema (s : List Char) (h : deviates s = false) :
+    resolvePlainRs s = coreResolve s := resolve_agrees_core s h
+
+/-- The exceptions are real: a decimal integer beyond `i64` becomes a float, a based one and an
+overflowing float stay strings. -/
+example : deviates "9223372036854775808".toList = true ∧
+    resolvePlainRs "9223372036854775808".toList = .float .finite ∧
+    coreResolve "9223372036854775808".toList = .int 9223372036854775808 := by decide
+example : deviates "0x8000000000000000".toList = true ∧
+    resolvePlainRs "0x8000000000000000".toList = .str "0x8000000000000000".toList := by decide
+example : deviates "1e999".toList = true ∧ resolvePlainRs "1e999".toList = .str "1e999".toList ∧
+    coreResolve "1e999".toList = .float .finite := by decide
+example : deviates "0x1F".toList = false ∧ deviates "-.5e3".toList = false ∧
+    deviates "+.inf".toList = false := by decide
+
+/-- `scalar_reread` for a reader that resolves with the core schema itself (any conforming YAML 1.2
+reader), outside the deviations: there `0x8000000000000000` is left plain by the emitter (the loader
+reads a string) but a core-schema reader reads an integer. -/
+theorem scalar_reread_core (inFlow : Bool) (s : List Char) (style : Style)
+    (hdev : deviates s = false) :
+    loadScalar coreResolve (valueCtx inFlow) (yamlQuoteStringWithStyle .v1 inFlow s style) =
+      some (.str s) := by
+  have hq : loadScalar coreResolve (valueCtx inFlow) (yamlQuoteString .v1 inFlow s) = some (.str s) := by
+    unfold yamlQuoteString
+    by_cases hs : s = []
+    · subst hs; simp [loadScalar, readSingle, readSingleSt]
+    · rw [if_neg hs]
+      by_cases hq : needsQuotingValue .v1 inFlow s = true
+      · rw [if_pos hq]; exact double_quote_reread _ _ s
+      · rw [if_neg hq]
+        cases s with
+        | nil => exact absurd rfl hs
+        | cons c rest =>
+          have f := value_plain_of_facts inFlow c rest
+            (valueFacts_of inFlow _ (by simpa [needsQuotingValue] using hq))
+          have hc : coreResolve (c :: rest) = .str (c :: rest) := by
+            rw [← resolve_agrees_core _ hdev]; exact f.2.1
+          simp [loadScalar, f.2.2.1, f.2.2.2, f.1, hc]
+  cases style with
+  | single =>
+    unfold yamlQuoteStringWithStyle
+    by_cases h : canSingleQuote s = true
+    · simp only [h, if_true]; exact single_quote_reread _ _ s h
+    · simp only [h]; exact hq
+  | double => exact double_quote_reread _ _ s
+  | other => exact hq
+
+example : loadScalar coreResolve .blockValue
+    (yamlQuoteString .v1 false "0x8000000000000000".toList) ≠
+    some (.str "0x8000000000000000".toList) := by decide
 
 /-! ## Anchors and aliases -/
 
